@@ -377,15 +377,19 @@ class ProductState:
         ).reshape((new_dims, new_dims))
         self.state = ps / jnp.trace(ps)
         other_outcomes = {}
-        if destructive:
+        # Custom states cannot be destroyed, for them the POVM is all that happens
+        from photon_weave.state.custom_state import CustomState
+
+        to_destroy = [s for s in states if not isinstance(s, CustomState)]
+        if destructive and len(to_destroy) > 0:
             # Get correct Composite Envelope
             if isinstance(
                 CompositeEnvelope._instances[self.container.composite_uid], list
             ):
                 other_outcomes = CompositeEnvelope._instances[
                     self.container.composite_uid
-                ][0].measure(*states)
-                for s in states:
+                ][0].measure(*to_destroy)
+                for s in to_destroy:
                     del other_outcomes[s]
         if C.contractions:
             self.contract()
